@@ -176,9 +176,7 @@ def alt_freq_set(depths, alts):
 
 
 def record_end(rec):
-    """End of the row where the VCF text itself fixes it: SNV -> start + 1, INFO END -> END; else open."""
-    if rec.get("end") is not None:
-        return {rec["end"]}
+    """End of the row where the statement's 'site' fixes it: an SNV covers its base; indel / symbolic ends are open."""
     if len(rec["ref"]) == 1 and len(rec["alt"]) == 1 and rec["alt"] in "ACGT":
         return {rec["pos"]}
     return OPEN
